@@ -20,6 +20,12 @@ initialX, minX, maxX, tolerance, convergenceLimit float64, maxIterations int) (x
 
 		halvingX := maxX - (maxX-minX)*0.5
 		bisectionX := maxX - (maxX-minX)*maxDelta/(maxDelta-minDelta)
+		// Rounding (or a zero residual at both ends) can put the secant point
+		// marginally outside the bracket: never evaluate fn outside [minX, maxX].
+		if math.IsNaN(bisectionX) {
+			bisectionX = halvingX
+		}
+		bisectionX = math.Min(math.Max(bisectionX, minX), maxX)
 
 		trialXs = append(trialXs, halvingX, bisectionX)
 
